@@ -24,12 +24,12 @@ func init() {
 	ev.Register(&ev.Check{
 		ID:             "C12",
 		Level:          "model_checking",
-		Rule:           "stateless exploration (CHESS-style DFS over choice prefixes) of the REAL library under a controlled scheduler injected by a build overlay (every sync.Once/Mutex/RWMutex/Pool operation of the library is a scheduling point; exactly one test goroutine runs at a time): scenarios S1 (uncompiled shared schema with types/enum, 2 threads x every ordered pair of ops from {Check, Validate, Example, GetAST, Len, UsedUserTypes}, 3 threads x 1 op), S2 (2 threads x 2 ops: first use + reuse), S3 (two root schemas sharing one added-type object using allOf + or, compiled concurrently), S4 (shared compiled schema validated by 2 threads while a third creates, compiles and Example()s a private schema), S5 (enum rule / regex type first use); ALL interleavings with <= 2 preemptions (3 threads: <= 1; thorough: 3 / 2) crossed with pool-answer deviations (<= 1). Oracle per execution: every call returns exactly its sequential result; every Once body ran once; no deadlock/livelock; the race detector (running as per-execution happens-before monitor: the scheduler's hand-off is invisible to it) reports nothing. states = distinct decision points visited, transitions = scheduling decisions taken, traces_validated_against_impl = executions (each one is an execution of the implementation).",
+		Rule:           "stateless exploration (CHESS-style DFS over choice prefixes) of the REAL library under a controlled scheduler injected by a build overlay (every sync.Once/Mutex/RWMutex/Pool operation of the library is a scheduling point; exactly one test goroutine runs at a time): scenarios S1 (uncompiled shared schema with types/enum, 2 threads x every ordered pair of ops from {Check, Validate, Example, GetAST, Len, UsedUserTypes}, 3 threads x 1 op), S2 (2 threads x 2 ops: first use + reuse), S3 (two root schemas sharing one added-type object using allOf + or, compiled concurrently), S4 (shared compiled schema validated by 2 threads while a third creates, compiles and Example()s a private schema), S5 (enum rule / regex type first use), S6 (2 and 3 goroutines each creating, loading, compiling and using private schemas: only the global pools are shared); ALL interleavings with <= 2 preemptions (3 threads: <= 1; thorough: 3 / 2) crossed with pool-answer deviations (<= 1). Oracle per execution: every call returns exactly its sequential result; every Once body ran once; no deadlock/livelock; the race detector (running as per-execution happens-before monitor: the scheduler's hand-off is invisible to it) reports nothing. states = distinct decision points visited, transitions = scheduling decisions taken, traces_validated_against_impl = executions (each one is an execution of the implementation).",
 		Workers:        func(string) int { return 16 },
 		Run:            run,
 		Replay:         replay,
 		RaceLog:        true,
-		QuickBudget:    85 * time.Second,
+		QuickBudget:    120 * time.Second,
 		ThoroughBudget: 14 * time.Minute,
 		Assumptions: []string{
 			"scheduling points at the library's synchronisation operations suffice because unsynchronised conflicting accesses between points are reported by the per-execution race monitor",
@@ -220,6 +220,50 @@ func privateSchemaScenario() scenario {
 	}}}
 }
 
+// creatorsScenario (S6): every goroutine creates, loads, compiles and uses
+// schemas of its own (different texts): they share only the library's global
+// pools (loader pool, example buffer pool).
+func creatorsScenario(threads int) scenario {
+	texts := []string{
+		"{\n  \"aaaaaaaaaaaa\": [\n    1,\n    \"two\"\n  ],\n  \"q\": @str\n}",
+		"[\n  {\n    \"k\": true // {optional: true}\n  },\n  @str\n]",
+		"{\n  \"n\": 12.5, // {min: 1}\n  \"o\": {\n    \"z\": null\n  }\n}",
+	}
+	docs := []string{`{"aaaaaaaaaaaa":[1,"two"],"q":"s"}`, `[{"k":true},"s"]`, `{"n":12.5,"o":{"z":null}}`}
+	use := func(i int) string {
+		p := jschema.New(fmt.Sprintf("priv%d", i), texts[i])
+		p.AddType("@str", jschema.New("@str", "\"s\""))
+		ce := errStr(p.Check())
+		b, err := p.Example()
+		if threads > 2 {
+			// three creators: load + compile + example only (keeps the schedule space of the quick tier finite in time)
+			return ce + "|" + string(b) + errStr(err)
+		}
+		ve := errStr(p.Validate(json.New("doc", docs[i])))
+		return ce + "|" + string(b) + errStr(err) + "|" + ve
+	}
+	var want []string
+	for i := 0; i < threads; i++ {
+		want = append(want, use(i))
+	}
+	return scenario{name: fmt.Sprintf("S6 %d goroutines create/compile/use private schemas", threads), threads: threads, heavy: true, sc: sched.Scenario{Name: "S6", Setup: func() ([]func(), func(*shim.Execution) string) {
+		res := make([]string, threads)
+		var bodies []func()
+		for i := 0; i < threads; i++ {
+			i := i
+			bodies = append(bodies, func() { res[i] = use(i) })
+		}
+		return bodies, func(*shim.Execution) string {
+			for i := range res {
+				if res[i] != want[i] {
+					return fmt.Sprintf("thread %d returned %.200q, sequentially %.200q", i, res[i], want[i])
+				}
+			}
+			return ""
+		}
+	}}}
+}
+
 func enumRegexScenario() scenario {
 	enumText := "[\n  1, // one\n  \"two\",\n  null\n]"
 	enumOps := []func(e *enum.Enum) string{
@@ -262,7 +306,7 @@ func enumRegexScenario() scenario {
 }
 
 func scenarios(thorough bool) []scenario {
-	out := []scenario{sharedTypeScenario(), privateSchemaScenario(), enumRegexScenario()}
+	out := []scenario{sharedTypeScenario(), privateSchemaScenario(), enumRegexScenario(), creatorsScenario(2), creatorsScenario(3)}
 	// S1: 2 threads x 1 op, every ordered pair (uncompiled)
 	for a := range ops {
 		for b := a; b < len(ops); b++ {
